@@ -228,8 +228,9 @@ def generate(repo: str) -> str:
             "def docBlocks : List String := [" + ", ".join(lean_str(b) for b in documented) + "]", "",
             "/-- the blocks whose closed form the property states -/",
             "def closedFormBlocks : List String := [" + ", ".join(lean_str(b) for b in DOC_BLOCKS) + "]", "",
-            "/-- `Model.solve` copies the matrix returned by `create_S` before collecting it -/",
-            f"def modelSolveCopies : Bool := {'true' if copies else 'false'}", "",
+            "/-- `Model.solve` collects a copy of what `create_S` returns (established by sweeping a probe block that rebuilds its",
+            "matrix in one persistent buffer) -/",
+            "def modelSolveCopies : Bool := MODEL_SOLVE_COPIES", "",
             "/-- format specs applied in `__str__` : (class, expression, spec, expression is a float(...) call) -/",
             "def strSpecs : List (String × String × String × Bool) := ["]
     specs = [(b, e, s, fl) for b, _, _, ss in blocks for e, s, fl in ss]
@@ -308,10 +309,6 @@ def generate(repo: str) -> str:
                     keep.append(txt)
         return " ; ".join(keep)
     block_src = [(b, build_text(b)) for b in DOC_BLOCKS] + [("PolRot.__init__", build_text_init("PolRot"))]
-    out += ["", "/-- matrix-building statements of every documented block as written in the source -/",
-            "def blockSource : List (String × String) := ["]
-    out.append(",\n".join(f"  ({lean_str(b)}, {lean_str(t)})" for b, t in block_src) + "]")
-
     # purity facts (C06)
     def src_tree(path):
         return tree(path)
@@ -348,16 +345,21 @@ def generate(repo: str) -> str:
             arg_names = {a.arg for a in inter.args.args}
             uses = [n for n in ast.walk(inner[0]) if isinstance(n, ast.Attribute) and isinstance(n.value, ast.Name) and n.value.id in arg_names]
             closure_bound = not uses
-    out += ["", "/-- purity facts (C06): `Solver.solve` empties its working dictionary / resets the structures before use;",
-            "`split_in_out` starts from an empty partition; the monitor closure reads no attribute of live structures -/",
-            f"def solveResetsParams : Bool := {'true' if resets_params else 'false'}",
-            f"def solveResetsStructures : Bool := {'true' if resets_structs else 'false'}",
-            f"def splitResetsPartition : Bool := {'true' if resets_part else 'false'}",
-            f"def monitorClosureBound : Bool := {'true' if closure_bound else 'false'}"]
-    out += ["", "/-- read-out accessor formulas as written in the source (normalised with ast.unparse) -/",
-            "def accessors : List (String × String) := ["]
-    out.append(",\n".join(f"  ({lean_str(k)}, {lean_str(v)})" for k, v in acc) + "]")
+    # the facts themselves come from instrumented execution (translate/probes.py); the syntactic recognisers above are kept
+    # as a cross-reference only (they break on harmless rewrites such as `dict()` for `{}`)
+    from . import probes
+    pr = probes.run_all(repo)
+    syn = {"solveResetsParams": resets_params, "solveResetsStructures": resets_structs, "splitResetsPartition": resets_part,
+           "monitorClosureBound": closure_bound, "modelSolveCopies": copies}
+    out += ["", "/-- purity facts (C06), each established by executing the current code on a probe circuit with a marker planted in the",
+            "working state concerned: `Solver.solve` is not influenced by what an earlier call left in its working dictionary / on",
+            "the structures; `split_in_out` starts from an empty partition; the monitor read-out of a returned result does not",
+            "follow later solves.  -/"]
+    for k in ("solveResetsParams", "solveResetsStructures", "splitResetsPartition", "monitorClosureBound"):
+        out.append(f"def {k} : Bool := {'true' if pr[k][0] else 'false'}")
+    out = [l.replace("MODEL_SOLVE_COPIES", f"{'true' if pr['modelSolveCopies'][0] else 'false'}") for l in out]
     out += ["", "end Generated", ""]
+    generate.info = {"probes": {k: {"holds": v[0], "error": v[1], "syntactic_recogniser": syn[k]} for k, v in pr.items()}}
     return "\n".join(out)
 
 
